@@ -134,6 +134,9 @@ func (m Common) NewTransport(c context.Context, actorBoxIRI *url.URL, gofedAgent
 	if err != nil {
 		return nil, err
 	}
+	if a.RealTransport {
+		return a.realTransport(), nil
+	}
 	return &Tport{A: a, Box: us(actorBoxIRI)}, nil
 }
 
